@@ -237,8 +237,8 @@ pub fn init_translations<L: Locale>() -> impl leptos::IntoView {
 
     let mut buff = String::from("window.__LEPTOS_I18N_TRANSLATIONS = [");
 
+    let mut first = true;
     for Trans { locale, id, values } in translations {
-        let mut first = true;
         if !std::mem::replace(&mut first, false) {
             buff.push(',');
         }
